@@ -827,6 +827,37 @@ type vc08RespFacts struct {
 	PreC      int    `json:"pre_compressed"`
 	Mode      string `json:"mode"`
 	Target    int    `json:"target"`
+	// Tail is "tsig" or "sig0" when the additional section carries such a
+	// record; TailLast says that it is the last record of the section (the
+	// handler's own OPT, if any, is then in front of it).
+	Tail     string `json:"tail,omitempty"`
+	TailLast bool   `json:"tail_last,omitempty"`
+}
+
+// vc08SigRR returns a transaction signature (TSIG) or a SIG(0) record as a
+// relayed signed answer carries at the end of its additional section.
+func vc08SigRR(kind string, id uint16) (rr dns.RR) {
+	if kind == "tsig" {
+		return &dns.TSIG{
+			Hdr:        dns.RR_Header{Name: "tsigkey.", Rrtype: dns.TypeTSIG, Class: dns.ClassANY},
+			Algorithm:  dns.HmacSHA256,
+			TimeSigned: 1700000000,
+			Fudge:      300,
+			MACSize:    32,
+			MAC:        strings.Repeat("ab", 32),
+			OrigId:     id,
+		}
+	}
+
+	return &dns.SIG{RRSIG: dns.RRSIG{
+		Hdr:        dns.RR_Header{Name: ".", Rrtype: dns.TypeSIG, Class: dns.ClassANY},
+		Algorithm:  dns.ED25519,
+		Expiration: 1700000300,
+		Inception:  1700000000,
+		KeyTag:     12345,
+		SignerName: "sigkey.",
+		Signature:  base64.StdEncoding.EncodeToString(bytes.Repeat([]byte{0x5a}, 64)),
+	}}
 }
 
 func vc08Hdr(name string, rrtype uint16, ttl uint32) dns.RR_Header {
@@ -965,6 +996,26 @@ func vc08GenResp(t *rapid.T, tr vc08Transport, req *dns.Msg, rf vc08ReqFacts, li
 		resp.Extra = append(resp.Extra, ownOpt)
 	}
 
+	// A signed answer: TSIG or SIG(0) at the end of the additional section, the
+	// handler's OPT (if any) before or after it.
+	var sigRR dns.RR
+	switch k := rapid.IntRange(0, 11).Draw(t, "tailSig"); {
+	case k == 0:
+		f.Tail = "sig0"
+	case k < 4:
+		f.Tail = "tsig"
+	}
+
+	if f.Tail != "" {
+		sigRR = vc08SigRR(f.Tail, req.Id)
+		f.TailLast = ownOpt == nil || rapid.Bool().Draw(t, "sigAfterOpt")
+		if f.TailLast {
+			resp.Extra = append(resp.Extra, sigRR)
+		} else {
+			resp.Extra = append([]dns.RR{sigRR}, resp.Extra...)
+		}
+	}
+
 	var standIn *dns.OPT
 	if rf.HasOpt && ownOpt == nil {
 		standIn = &dns.OPT{Hdr: dns.RR_Header{Name: ".", Rrtype: dns.TypeOPT}, Option: vc08EchoOpts(req.IsEdns0())}
@@ -1020,11 +1071,21 @@ func vc08GenResp(t *rapid.T, tr vc08Transport, req *dns.Msg, rf vc08ReqFacts, li
 		case s < 8:
 			resp.Ns = append(resp.Ns, rr)
 		default:
-			// Keep the handler's OPT where it is (usually last).
+			// Keep the handler's OPT where it is (usually last), and a signature
+			// record always where it is.
 			n := len(resp.Extra)
-			if ownOpt != nil && resp.Extra[n-1] == dns.RR(ownOpt) && rapid.IntRange(0, 3).Draw(t, "beforeOpt") != 0 {
+			switch {
+			case sigRR != nil:
+				// In front of the trailing block (OPT and/or signature).
+				at := n
+				for at > 0 && (resp.Extra[at-1] == sigRR || ownOpt != nil && resp.Extra[at-1] == dns.RR(ownOpt)) {
+					at--
+				}
+
+				resp.Extra = append(resp.Extra[:at:at], append([]dns.RR{rr}, resp.Extra[at:]...)...)
+			case ownOpt != nil && resp.Extra[n-1] == dns.RR(ownOpt) && rapid.IntRange(0, 3).Draw(t, "beforeOpt") != 0:
 				resp.Extra = append(resp.Extra[:n-1:n-1], rr, ownOpt)
-			} else {
+			default:
 				resp.Extra = append(resp.Extra, rr)
 			}
 		}
@@ -1217,7 +1278,7 @@ func (f *vc08Findings) report(t testing.TB) {
 	f.mu.Lock()
 	defer f.mu.Unlock()
 
-	for _, id := range []string{vc08KnownOptSize, vc08KnownDoH64K, vc08KnownOptAlone, vc08KnownDCFallback} {
+	for _, id := range []string{vc08KnownOptSize, vc08KnownDoH64K, vc08KnownOptAlone, vc08KnownDCFallback, vc08KnownTSIGLast} {
 		if u := f.unlisted[id]; u != nil {
 			t.Errorf("C08 violated (finding %q, not listed in known_findings.json; %d cases, smallest shown):\n  %s\ncase: %+v", id, u.n, u.what, u.c)
 		}
@@ -1339,6 +1400,13 @@ func vc08Run(
 // query with an OPT record gets a response without one.
 const vc08KnownDCFallback = "dnscrypt-fallback-servfail-without-opt"
 
+// vc08KnownTSIGLast: a handler response whose additional section ends with a
+// TSIG record, in the forms where normalize appends nothing behind it (the
+// response has its own OPT in front of the TSIG, or the query has no OPT), is
+// never truncated: dns.Msg.Truncate is a no-op for a message with a trailing
+// TSIG, so an oversize response leaves over UDP as it is.
+const vc08KnownTSIGLast = "tsig-last-disables-truncation"
+
 // vc08Judge evaluates the oracle on what was written for the case c (request
 // facts, handler-response facts and limit are taken from c).
 func vc08Judge(fnd *vc08Findings, c *vc08Case, tr vc08Transport, out vc08Out, ob vc08Obs) (classes []string, violations []string) {
@@ -1453,6 +1521,25 @@ func vc08Judge(fnd *vc08Findings, c *vc08Case, tr vc08Transport, out vc08Out, ob
 		cls("handler-tc-preset")
 	}
 
+	if pf.Tail != "" && reached {
+		pos := "-before-own-opt"
+		switch {
+		case pf.TailLast && pf.OwnOpt:
+			pos = "-after-own-opt"
+		case pf.TailLast:
+			pos = "-last-no-own-opt"
+		}
+
+		cls("tail:" + pf.Tail + pos)
+		if over && tr.datagram() {
+			cls("oversize-datagram-tail:" + pf.Tail + pos)
+		}
+
+		if over && rf.HasOpt && !pf.OwnOpt && pf.Tail == "tsig" && pf.TailLast {
+			cls("oversize-response-ending-with-tsig-and-no-opt-of-its-own")
+		}
+	}
+
 	if ob.handled != 1 {
 		cls("handler-not-invoked")
 	}
@@ -1535,6 +1622,11 @@ func vc08Judge(fnd *vc08Findings, c *vc08Case, tr vc08Transport, out vc08Out, ob
 	if len(out.msg) > limit && (reqDecided || !tr.datagram()) {
 		what := fmt.Sprintf("size: %d octets written, limit is %d", len(out.msg), limit)
 		switch {
+		case pf.Tail == "tsig" && pf.TailLast && (pf.OwnOpt || !rf.HasOpt) && ob.handled == 1 && !replaced:
+			// The handler's response ends with a TSIG record and normalize adds
+			// nothing behind it: dns.Msg.Truncate returns at once for such a
+			// message.
+			cls(fnd.match(vc08KnownTSIGLast, what+fmt.Sprintf(" (response ends with a TSIG record, TC %v, %d answers kept)", c.OutTC, c.OutCounts[0]), c))
 		case tr == vc08DoH && rf.Pad >= 0 && len(out.msg) <= 65535+4+responsePaddingMaxSize:
 			// Padding is added after the size check; DoH has no 64 KiB guard.
 			cls(fnd.match(vc08KnownDoH64K, what, c))
@@ -1765,6 +1857,9 @@ func TestVerifC08Transports(t *testing.T) {
 		"fail:context-deadline", "fail:os-deadline", "fail:net-error-timeout", "fail:wrapped-context-deadline",
 		"fail:context-canceled", "fail:generic",
 		"server-servfail-timeout-text-plus-name-exceed-udp-limit", "fail-text-200-or-more",
+		"oversize-response-ending-with-tsig-and-no-opt-of-its-own", "tail:tsig-last-no-own-opt",
+		"tail:tsig-after-own-opt", "tail:tsig-before-own-opt", "tail:sig0-last-no-own-opt",
+		"oversize-datagram-tail:tsig-last-no-own-opt", "oversize-datagram-tail:tsig-before-own-opt",
 	)
 	st.Finish(t)
 
@@ -1837,7 +1932,9 @@ var vc08GridValues = []uint16{0, 1, 2, 255, 511, 512, 513, 514, 1000, 1231, 1232
 func TestVerifC08UDPGrid(t *testing.T) {
 	st := vstat.New("C08", "dnsserver.udpgrid",
 		"bounded-exhaustive: (advertised size or none) x configured maximum over a fixed list of edge values x response size limit-1..limit+2 x {plain UDP, DNSCrypt UDP} x {handler OPT, no handler OPT}; non-trivial = response of limit+1 or limit+2 octets",
-		"pre-over-limit-udp", "pre-over-limit-dnscrypt-udp", "records-dropped-udp", "out-exactly-limit")
+		"pre-over-limit-udp", "pre-over-limit-dnscrypt-udp", "records-dropped-udp", "out-exactly-limit",
+		"oversize-response-ending-with-tsig-and-no-opt-of-its-own", "oversize-datagram-tail:tsig-before-own-opt",
+		"oversize-datagram-tail:sig0-last-no-own-opt", "oversize-datagram-tail:sig0-after-own-opt")
 	st.SetExhaustive()
 	st.Finish(t)
 
@@ -1863,7 +1960,14 @@ func TestVerifC08UDPGrid(t *testing.T) {
 
 				for _, ownOpt := range []bool{false, true} {
 					for d := -1; d <= 2; d++ {
-						vc08GridCase(t, st, fnd, e, tr, adv, cap, ownOpt, d)
+						vc08GridCase(t, st, fnd, e, tr, adv, cap, ownOpt, d, "", false)
+						for _, tail := range []string{"tsig", "sig0"} {
+							vc08GridCase(t, st, fnd, e, tr, adv, cap, ownOpt, d, tail, true)
+							if ownOpt {
+								vc08GridCase(t, st, fnd, e, tr, adv, cap, ownOpt, d, tail, false)
+							}
+						}
+
 					}
 				}
 			}
@@ -1871,7 +1975,7 @@ func TestVerifC08UDPGrid(t *testing.T) {
 	}
 }
 
-func vc08GridCase(t *testing.T, st *vstat.Stats, fnd *vc08Findings, e *vc08Env, tr vc08Transport, adv int, cap uint16, ownOpt bool, d int) {
+func vc08GridCase(t *testing.T, st *vstat.Stats, fnd *vc08Findings, e *vc08Env, tr vc08Transport, adv int, cap uint16, ownOpt bool, d int, tail string, tailLast bool) {
 	rf := vc08ReqFacts{Name: "grid.example.", Qtype: dns.TypeTXT, Pad: -1, NSID: -1}
 	req := (&dns.Msg{}).SetQuestion(rf.Name, rf.Qtype)
 	req.Id = 4711
@@ -1893,6 +1997,15 @@ func vc08GridCase(t *testing.T, st *vstat.Stats, fnd *vc08Findings, e *vc08Env, 
 		pf.OwnOpt, pf.OwnOptLen = true, dns.Len(o)
 	case rf.HasOpt:
 		standIn = &dns.OPT{Hdr: dns.RR_Header{Name: ".", Rrtype: dns.TypeOPT}}
+	}
+
+	if tail != "" {
+		pf.Tail, pf.TailLast, pf.Extra = tail, tailLast, 1
+		if tailLast {
+			resp.Extra = append(resp.Extra, vc08SigRR(tail, req.Id))
+		} else {
+			resp.Extra = append([]dns.RR{vc08SigRR(tail, req.Id)}, resp.Extra...)
+		}
 	}
 
 	// Incompressible body: root-owner TXT records, the last one sized to hit
@@ -1920,7 +2033,7 @@ func vc08GridCase(t *testing.T, st *vstat.Stats, fnd *vc08Findings, e *vc08Env, 
 	c, classes, violations := vc08Run(fnd, e, tr, cap, false, req, rf, resp, pf)
 	nt := ""
 	if d > 0 {
-		nt = fmt.Sprintf("%s|%d|%d|%v|%d", tr, adv, cap, ownOpt, d)
+		nt = fmt.Sprintf("%s|%d|%d|%v|%d|%s|%v", tr, adv, cap, ownOpt, d, tail, tailLast)
 	}
 
 	st.Case(nt, classes...)
